@@ -15,6 +15,9 @@ use std::time::Duration;
 
 #[derive(Clone, Debug, Serialize, Deserialize, Hash)]
 pub struct Plan {
+    /// the host resets the connection instead of answering these requests (the relay fails after authorization)
+    #[serde(default)]
+    pub upstream_fails: bool,
     pub rec: Rec,
     pub method: String,
     pub url: GUrl,
@@ -74,13 +77,13 @@ fn plan() -> impl Strategy<Value = Plan> {
         gen::gurl_no_traversal(),
         gen::bind(),
         prop_oneof![5 => Just(1u8), 3 => 2u8..5, 1 => 5u8..12],
-        any::<bool>(),
+        (any::<bool>(), prop::bool::weighted(0.12)),
     )
-        .prop_map(|(uid_sel, helper_sel, dest, method, mut url, bind, repeat, concurrent)| {
+        .prop_map(|(uid_sel, helper_sel, dest, method, mut url, bind, repeat, (concurrent, upstream_fails))| {
             if url.path.eq_ignore_ascii_case("/provision") {
                 url.path = "/provisio".into();
             }
-            Plan { rec: Rec { uid_sel, helper_sel, is_root: matches!(dest, DestSel::WireServer | DestSel::GaPlugin) || uid_sel == 0, dest }, method, url, bind, repeat, concurrent: concurrent || repeat >= 100 }
+            Plan { rec: Rec { uid_sel, helper_sel, is_root: matches!(dest, DestSel::WireServer | DestSel::GaPlugin) || uid_sel == 0, dest }, method, url, bind, repeat, concurrent: concurrent || repeat >= 100, upstream_fails }
         })
 }
 
@@ -110,7 +113,7 @@ pub fn strategy() -> impl Strategy<Value = Case> {
         .prop_map(|(ws, imds, hostga, plans)| Case { ws, imds, hostga, plans })
 }
 
-pub const RULE: &str = "generator: one rule set (or none) per endpoint with unique names, each in a generated mode; a history of 1-7 request plans, each = caller (uid from the generated passwd, helper process; elevated for WireServer/HostGAPlugin so that denials come from the rules) (two pairs of helper processes share an executable and differ only in their command line) x method x URL (mostly bound to the destination's rule set, no duplicate query keys) repeated 1-11 times, sequentially or concurrently on separate connections, or (second engine, 3% of the cases) with the first plan as a burst of 150-250 simultaneous denied connections (all opened, then all requests written, then all responses read), followed by the same number of denials handed to AgentStatusSharedState::add_one_failed_connection_summary by concurrent tasks of the agent's runtime. oracle: per request - enforce+deny => 403 and zero upstream bytes; audit+deny => relayed to the recorded destination with status 200; disabled/allowed => relayed; after the history the reference multiset denials[(user, destination ip, port, executable, command line, '403 Forbidden')] equals get_all_failed_connection_summary() (keys and counts) and the failedAuthenticateSummary of the status.json written by a real ProxyAgentStatusTask; one audit-denied request per case is re-sent with the rule set disabled and the two upstream requests must be equal except for the date value and MAC. non-trivial: history with >= 2 identical denials and denials from >= 2 callers in audit or enforce mode; distinct by hash of the case.";
+pub const RULE: &str = "generator: one rule set (or none) per endpoint with unique names, each in a generated mode; a history of 1-7 request plans, each = caller (uid from the generated passwd, helper process; elevated for WireServer/HostGAPlugin so that denials come from the rules) (two pairs of helper processes share an executable and differ only in their command line) x method x URL (mostly bound to the destination's rule set, no duplicate query keys) repeated 1-11 times, sequentially or concurrently on separate connections (12% of the plans: the host resets the relayed request instead of answering - the client must get a 5xx and an audit denial is recorded all the same), or (second engine, 3% of the cases) with the first plan as a burst of 150-250 simultaneous denied connections (all opened, then all requests written, then all responses read), followed by the same number of denials handed to AgentStatusSharedState::add_one_failed_connection_summary by concurrent tasks of the agent's runtime. oracle: per request - enforce+deny => 403 and zero upstream bytes; audit+deny => relayed to the recorded destination with status 200; disabled/allowed => relayed; after the history the reference multiset denials[(user, destination ip, port, executable, command line, '403 Forbidden')] equals get_all_failed_connection_summary() (keys and counts) and the failedAuthenticateSummary of the status.json written by a real ProxyAgentStatusTask; one audit-denied request per case is re-sent with the rule set disabled and the two upstream requests must be equal except for the date value and MAC. non-trivial: history with >= 2 identical denials and denials from >= 2 callers in audit or enforce mode; distinct by hash of the case.";
 
 type Key = (String, String, u16, String, String, String);
 
@@ -142,6 +145,11 @@ pub fn eval(rig: &Rig, st: &StatusTask, case: &Case, stats: &mut Stats) -> Outco
     rig.set_key(None);
     let agent_status = rig.shared.get_agent_status_shared_state();
     rig.rt.block_on(async { agent_status.clear_all_summary().await }).expect("clear_all_summary");
+    rig.mock.set_responder(Box::new(|r| {
+        let mut s = crate::mockhost::ResponseSpec::ok(b"mock");
+        s.reset = r.head.get("x-upstream-fails").is_some();
+        s
+    }));
     let mut want: BTreeMap<Key, u64> = BTreeMap::new();
     let mut audit_probe: Option<(Plan, String)> = None;
     let mut identical_denials = false;
@@ -176,7 +184,12 @@ pub fn eval(rig: &Rig, st: &StatusTask, case: &Case, stats: &mut Stats) -> Outco
         stats.class(&format!("request:{:?}/mode:{}", verdict, mode));
         let (ip, port) = plan.rec.dest.addr();
         let key: Key = (claims.user.clone(), format!("{}.{}.{}.{}", ip[0], ip[1], ip[2], ip[3]), port, claims.exe.clone(), claims.cmdline.clone(), "403 Forbidden".to_string());
-        let wire = crate::rawhttp::request_head(&plan.method, &target, &[("Host".into(), b"h".to_vec()), ("Metadata".into(), b"true".to_vec())]);
+        let mut wire_headers: Vec<(String, Vec<u8>)> = vec![("Host".into(), b"h".to_vec()), ("Metadata".into(), b"true".to_vec())];
+        if plan.upstream_fails {
+            wire_headers.push(("x-upstream-fails".into(), b"1".to_vec()));
+            stats.class("plan:host-resets-the-relayed-request");
+        }
+        let wire = crate::rawhttp::request_head(&plan.method, &target, &wire_headers);
         let n = plan.repeat.max(1) as usize;
         total_requests += n as u64;
         if n >= 100 {
@@ -237,6 +250,13 @@ pub fn eval(rig: &Rig, st: &StatusTask, case: &Case, stats: &mut Stats) -> Outco
                     }
                     if !plan.concurrent && (!o.delta.is_empty() || !o.requests.is_empty()) {
                         return Outcome::fail("modes:enforced-denial-relayed", format!("{:?} bytes upstream for {} {}", o.delta, plan.method, target));
+                    }
+                }
+                Verdict::RelayWithAudit | Verdict::Relay if plan.upstream_fails => {
+                    // authorised (or audit-denied) and handed to the host, which drops it: an error status, and the audit
+                    // denial is recorded all the same (checked against the summary below)
+                    if !(500..600).contains(&status) {
+                        return Outcome::fail("modes:failed-relay-not-reported-as-5xx", format!("status {} for {} {} although the host reset the connection", status, plan.method, target));
                     }
                 }
                 Verdict::RelayWithAudit | Verdict::Relay => {
